@@ -295,26 +295,28 @@ func C03(o *core.Options) int {
 		e2.ShadowSweep(r, models, so, body)
 		return r.Finish()
 	}
-	e2.Sweep(r, models, so, body)
-	// contextual tuple with the key of a stored tuple (different condition/context)
-	if !o.Thorough() {
-		e2.ShadowExtraStride = 3
-	}
-	e2.ShadowSweep(r, models, so, body)
+	// the narrow parts first: they must not be the ones a deadline cuts
+	c03BottomUp(o, r)
 	// nested set operators over one object (ref.FlatFamily), up to 4 tuples
-	so.K, so.U = 4, ref.FlatUniverse()
-	nodes = e2.RequestNodes(so.U)
+	sf := so
+	sf.K, sf.U = 4, ref.FlatUniverse()
+	nodes = e2.RequestNodes(sf.U)
 	flat := e2.ValidModels(ref.FlatFamily())
 	if !o.Thorough() {
 		flat = ref.EveryNth(flat, 2, int(o.Seed))
 	}
 	r.Set("flat_family_models", len(flat))
-	e2.Sweep(r, flat, so, func(env *e2.Env, w *ref.World) {
+	e2.Sweep(r, flat, sf, func(env *e2.Env, w *ref.World) {
 		r.Count("worlds_flat_family", 1)
 		body(env, w)
 	})
 	nodes = e2.RequestNodes(ref.DefaultUniverse())
-	c03BottomUp(o, r)
+	// contextual tuple with the key of a stored tuple (different condition/context)
+	if !o.Thorough() {
+		e2.ShadowExtraStride = 3
+	}
+	e2.ShadowSweep(r, models, so, body)
+	e2.Sweep(r, models, so, body)
 	return r.Finish()
 }
 
